@@ -20,11 +20,11 @@ type VStruct struct{ F []Val } // by-value struct or tuple
 type PtrKind int
 
 const (
-	PField PtrKind = iota // pointer to a non-struct field of a heap struct
-	PCell                 // pointer to a local cell (Alloc of non-struct, non-array)
-	PElem                 // pointer to a slice/array element
-	PArray                // pointer to a whole array (Alloc of [N]T)
-	PGlobal               // pointer to a package-level variable
+	PField  PtrKind = iota // pointer to a non-struct field of a heap struct
+	PCell                  // pointer to a local cell (Alloc of non-struct, non-array)
+	PElem                  // pointer to a slice/array element
+	PArray                 // pointer to a whole array (Alloc of [N]T)
+	PGlobal                // pointer to a package-level variable
 )
 
 // VPtr is a translation-time pointer descriptor (never stored in the heap).
@@ -117,6 +117,7 @@ type GhostField struct {
 // Shapes computes leaves for Go types.
 type Shapes struct {
 	Ghost map[string][]GhostField // by qualName of struct type
+	Open  map[string]map[string]bool // fields of external struct types that are modelled (open field T.name)
 }
 
 func (sh *Shapes) Leaves(t types.Type) []Leaf {
@@ -182,9 +183,12 @@ func (sh *Shapes) Fields(t types.Type) []FieldInfo {
 	var out []FieldInfo
 	n, _ := t.(*types.Named)
 	external := n != nil && n.Obj().Pkg() != nil && !strings.HasPrefix(n.Obj().Pkg().Path(), RepoModule)
-	if st != nil && !external {
+	if st != nil {
 		for i := 0; i < st.NumFields(); i++ {
 			f := st.Field(i)
+			if external && !sh.Open[qualName(n)][f.Name()] {
+				continue
+			}
 			out = append(out, FieldInfo{f.Name(), f.Type(), false, i})
 		}
 	}
